@@ -200,6 +200,10 @@ func runC13(c *core.Ctx) {
 				want = x.Msg
 				break
 			}
+			if x, ok := l.Err.(*gen.AsWrap); ok {
+				want = "wrap:" + x.Msg
+				break
+			}
 		}
 		if got != (want != "") || got && tgt.From != want {
 			c.Violate("as-order/custom-As-method", "As through a type's own As method does not use the first match in branch order", fmt.Sprintf("%s\ngot %v want from %q", t, got, want))
